@@ -448,9 +448,15 @@ func (db *DB) doProcessIterations(iterations []*iteration) {
 		return false
 	}
 
+	// The shared scan may only have a deadline if every one of the coalesced
+	// iterations has one (it then runs until the latest of them).
+	allHaveDeadlines := true
 	for _, it := range iterations {
 		includeMemStore = includeMemStore || it.includeMemStore
 		deadline, hasDeadline := it.ctx.Deadline()
+		if !hasDeadline {
+			allHaveDeadlines = false
+		}
 		if hasDeadline && deadline.After(maxDeadline) {
 			maxDeadline = deadline
 		}
@@ -479,6 +485,9 @@ func (db *DB) doProcessIterations(iterations []*iteration) {
 		remainingIterations[i] = it
 	}
 
+	// errors of individual iterations, these must not affect their siblings
+	iterationErrors := make(map[int]error)
+
 	combinedOnValue := func(dims bytemap.ByteMap, vals []encoding.Sequence) (bool, error) {
 		more := false
 		for i, it := range remainingIterations {
@@ -492,7 +501,10 @@ func (db *DB) doProcessIterations(iterations []*iteration) {
 			itMore, err := it.onValue(dims, itVals)
 			if err != nil {
 				it.t.log.Errorf("Error while iterating: %v", err)
-				return false, err
+				// Only this iteration failed (e.g. its own deadline expired), stop
+				// feeding it but keep going for the others.
+				iterationErrors[i] = err
+				itMore = false
 			}
 			if !itMore {
 				// This iteration doesn't want any more data, stop feeding it
@@ -505,7 +517,7 @@ func (db *DB) doProcessIterations(iterations []*iteration) {
 	}
 
 	newCtx := context.Background()
-	if !maxDeadline.IsZero() {
+	if allHaveDeadlines && !maxDeadline.IsZero() {
 		var cancel context.CancelFunc
 		newCtx, cancel = context.WithDeadline(newCtx, maxDeadline)
 		defer cancel()
@@ -514,9 +526,13 @@ func (db *DB) doProcessIterations(iterations []*iteration) {
 	if err != nil {
 		iterations[0].t.log.Errorf("Got error while iterating: %v", err)
 	}
-	for _, it := range iterations {
+	for i, it := range iterations {
 		it.offsetsCh <- offsetsBySource
-		it.errCh <- err
+		if iterationErr, failed := iterationErrors[i]; failed {
+			it.errCh <- iterationErr
+		} else {
+			it.errCh <- err
+		}
 	}
 }
 
